@@ -283,7 +283,7 @@ def search(kind, limit=5):
     """Returns (found, stats).  found: list of dicts with definition, inputs, gen, model, impl."""
     stats = {"probes": 0, "gen_differs_from_model": 0, "real_code_differs_too": 0, "error": None}
 
-    r = C._locked(["sh", "-c", "lake build VerdeModel.Gen.Kernels VerdeModel.Gen.Coords VerdeModel.Gen.Trend VerdeModel.Gen.Utils VerdeModel.Gen.IO VerdeModel.Gen.Base VerdeModel.Gen.Chain VerdeModel.Gen.Score VerdeModel.Gen.Neighbors VerdeModel.Gen.Grid VerdeModel.Gen.Blocks VerdeModel.Gen.LeastSquares VerdeModel.Gen.Region VerdeModel.Gen.Gridder VerdeModel.Gen.Mask VerdeModel.Gen.ProjectGrid VerdeModel.Gen.CVSplit VerdeModel.Gen.Loops VerdeModel.Gen.Windows VerdeModel.Gen.ModelSel VerdeModel.Gen.BlockSplit VerdeModel.Gen.DistMask VerdeModel.Gen.Distances VerdeModel.Gen.VectorComp VerdeModel.Gen.Fit VerdeModel.Gen.Predict VerdeModel.Gen.Profile VerdeModel.Gen.MakeGrid VerdeModel.Gen.BlockMean VerdeModel.Gen.GridCoords >&2 && "
+    r = C._locked(["sh", "-c", "lake build VerdeModel.Gen.Kernels VerdeModel.Gen.Coords VerdeModel.Gen.Trend VerdeModel.Gen.Utils VerdeModel.Gen.IO VerdeModel.Gen.Base VerdeModel.Gen.Chain VerdeModel.Gen.Score VerdeModel.Gen.Neighbors VerdeModel.Gen.Grid VerdeModel.Gen.Blocks VerdeModel.Gen.LeastSquares VerdeModel.Gen.Region VerdeModel.Gen.Gridder VerdeModel.Gen.Mask VerdeModel.Gen.ProjectGrid VerdeModel.Gen.CVSplit VerdeModel.Gen.Loops VerdeModel.Gen.Windows VerdeModel.Gen.ModelSel VerdeModel.Gen.BlockSplit VerdeModel.Gen.DistMask VerdeModel.Gen.Distances VerdeModel.Gen.VectorComp VerdeModel.Gen.Fit VerdeModel.Gen.Predict VerdeModel.Gen.Scipy VerdeModel.Gen.Profile VerdeModel.Gen.MakeGrid VerdeModel.Gen.BlockMean VerdeModel.Gen.GridCoords >&2 && "
                    f"lake env lean --run GenEval.lean {kind}"], C.LEAN_DIR, 1500)
     if r.returncode != 0:
         stats["error"] = "translated definitions do not evaluate: " + (r.stdout + r.stderr)[-800:]
